@@ -11,8 +11,10 @@ CLASS("re:Pattern", name="Pattern", fields={})
 CLASS("re:Match", name="Match", fields={"start_": "Int", "end_": "Int"})
 
 ASSUME("re:Pattern.match",
-       params={"self": "Pattern", "string": "Str", "pos": "Int"}, returns="Opt[Obj[Match]]",
-       ensures=[("anchored-span", "implies(result is not None, result.start_ == pos and pos <= result.end_ and result.end_ <= len(string))"),
+       params={"self": "Pattern", "string": "Str", "pos": "Int=0"}, returns="Opt[Obj[Match]]",
+       ensures=[("deterministic", "(result is not None) == pat_matches(self, string, pos)"),
+                ("group1", "implies(result is not None, match_group(result, 1) == pat_group1(self, string, pos))"),
+                ("anchored-span", "implies(result is not None, result.start_ == pos and pos <= result.end_ and result.end_ <= len(string))"),
                 ("in-range", "implies(result is not None, 0 <= pos and pos <= len(string))"),
                 ("fresh", "implies(result is not None, fresh(result))")],
        note="re.Pattern.match(s, pos): None or a match object whose span starts at pos and lies within s")
